@@ -676,3 +676,88 @@ impl LuaIndex for LuaModuleIndex {
         self.module_nodes.insert(self.module_root_id, root_node);
     }
 }
+
+#[cfg(feature = "verif-hooks")]
+impl LuaModuleIndex {
+    pub(crate) fn verif_sizes(&self) -> Vec<(&'static str, usize)> {
+        vec![
+            ("module_nodes", self.module_nodes.len()),
+            (
+                "module_nodes.children",
+                self.module_nodes.values().map(|n| n.children.len()).sum(),
+            ),
+            (
+                "module_nodes.file_ids",
+                self.module_nodes.values().map(|n| n.file_ids.len()).sum(),
+            ),
+            ("file_module_map", self.file_module_map.len()),
+            (
+                "module_name_to_file_ids",
+                self.module_name_to_file_ids.len(),
+            ),
+            (
+                "module_name_to_file_ids.ids",
+                self.module_name_to_file_ids
+                    .values()
+                    .map(|v| v.len())
+                    .sum(),
+            ),
+            ("workspaces", self.workspaces.len()),
+        ]
+    }
+
+    pub(crate) fn verif_file_refs(&self, file_id: FileId) -> Vec<(&'static str, usize)> {
+        vec![
+            (
+                "module_nodes.file_ids",
+                self.module_nodes
+                    .values()
+                    .map(|n| n.file_ids.iter().filter(|f| **f == file_id).count())
+                    .sum(),
+            ),
+            (
+                "file_module_map",
+                self.file_module_map.contains_key(&file_id) as usize,
+            ),
+            (
+                "module_name_to_file_ids.ids",
+                self.module_name_to_file_ids
+                    .values()
+                    .map(|v| v.iter().filter(|f| **f == file_id).count())
+                    .sum(),
+            ),
+        ]
+    }
+
+    /// Structural self-check of the module tree: returns a description of every node that
+    /// is not reachable from the root through `children`, or whose parent link disagrees.
+    pub(crate) fn verif_tree_defects(&self) -> Vec<String> {
+        let mut reachable: HashSet<ModuleNodeId> = HashSet::new();
+        let mut stack = vec![self.module_root_id];
+        let mut out = Vec::new();
+        while let Some(id) = stack.pop() {
+            if !reachable.insert(id) {
+                continue;
+            }
+            if let Some(node) = self.module_nodes.get(&id) {
+                for (name, child) in &node.children {
+                    match self.module_nodes.get(child) {
+                        Some(c) if c.parent == Some(id) => stack.push(*child),
+                        Some(_) => out.push(format!("child {name} has a different parent link")),
+                        None => out.push(format!("child {name} points to a missing node")),
+                    }
+                }
+            }
+        }
+        let unreachable = self
+            .module_nodes
+            .keys()
+            .filter(|id| !reachable.contains(*id))
+            .count();
+        if unreachable > 0 {
+            out.push(format!("{unreachable} unreachable node(s)"));
+        }
+        out.sort();
+        out
+    }
+}
